@@ -125,13 +125,16 @@ PROPS = {
         "1e-9 x range away from it - that the operation is defined (non-zero divisor, bounded quotient, non-negative radicand ...). "
         "A model is replayed natively and counts only if a result component is NaN or infinite in f32 and f64.",
         "Trusted: z3. Real-arithmetic definedness: NaN produced by rounding alone (a radicand that is >= 0 in the reals but negative "
-        "after cancellation) is outside the claim; the cusp-search spaces (Okhsl/Okhsv/HSLuv) and CAM16 are not covered."),
+        "after cancellation) is outside the Engine-S claim; Engine K adds bit-precise kernels (is_valid_divisor, and in the thorough tier "
+        "RGB->HSL/HSV, HSV<->HSL, HWB->HSV, XYZ<->xyY in f32). The cusp-search spaces (Okhsl/Okhsv/HSLuv) and CAM16 are not covered.",
+        engines=("kani", "symx")),
     "C08": sprop(
         "Symbolic execution of the real Blend / Compose / Premultiply code (PreAlpha, Alpha and opaque forms, LinSrgb) and an "
         "independent transcription of the W3C Compositing and Blending formulas in the same term arena; z3 decides for ALL colours and "
         "alphas in [0,1] that every component equals the W3C value (1e-9), stays in range, that opaque inputs reduce to B(Cb,Cs), "
         "that the commutative modes/operators are symmetric, the over identities, and the premultiplication round trip.",
-        "Trusted: z3; the W3C transcription (symx/src/reference/w3c_blend.rs). Rounding of individual float operations is outside the claim."),
+        "Trusted: z3; the W3C transcription (symx/src/reference/w3c_blend.rs). Rounding of individual float operations is outside the "
+        "Engine-S claim; Engine K adds the bit-precise non-zero-alpha rule of unpremultiplication for every normal alpha.", engines=("kani", "symx")),
     "C09": sprop(
         "Symbolic execution of the real colour-difference code (Delta E, improved Delta E, HyAB, Euclidean, Lch forms, WCAG contrast, "
         "CIEDE2000): z3 decides for ALL pairs of colours in the stated boxes equality with the closed forms / the Sharma reference, "
@@ -162,14 +165,14 @@ PROPS = {
         "points and round-trips.",
         "Trusted: z3; the independent derivation of the RGB matrices from the published chromaticities (symx/src/reference/rgbspace.rs). "
         "Rounding of individual float operations is outside the claim."),
-    "C05": kprop(
+    "C05": sprop(
         "Bit-precise bounded model checking of the integer fast paths: for each encoding the real from_linear/into_linear impls and "
         "the real lookup tables are executed symbolically over ALL f32 (2^32) / f64 (2^64) inputs and all codes: totality and "
         "memory safety of the unchecked table read, saturation, monotonicity (adjacent-pair), error < 0.6 code against threshold "
         "tables computed with mpmath from the published curve constants, decode->encode identity, decode tables vs the standard curve.",
         "Trusted: Kani/CBMC/cadical; the mpmath evaluation of the published curves in kani/gen/c05.py (tables in kani/src/c05_tables.rs). "
         "The generic float<->float curves (powf) are decided by Engine S, not here. 16-bit ProPhoto error/round-trip obligations are thorough-tier.",
-        ["reference thresholds come from the standards' constants, not from /repo"]),
+        ["reference thresholds come from the standards' constants, not from /repo"], engines=("kani", "symx")),
     "C11": sprop(
         "Bit-precise bounded model checking of hue normalisation, equality and 8-bit conversion: all f32 (quick) / f64 (thorough) "
         "angles with |x| <= 2^20 are one symbolic input; range, congruence modulo 360, equality under whole turns, inequality, "
